@@ -68,7 +68,7 @@ def _finished(res):
 
 
 def configurations(ctx, name="CodecConfig", only=None):
-    """Returns (list of {cfg, outcome}, info).  quick: pairwise design with one salt; thorough: three salts
+    """Returns (list of {cfg, outcome}, info).  quick: pairwise design with one salt; thorough: two salts
     plus random valid configurations from tlc -simulate in 'free' mode (deeper transforms)."""
     import os
 
@@ -83,7 +83,7 @@ def configurations(ctx, name="CodecConfig", only=None):
             step = len(cfgs) / float(lim)
             cfgs = [cfgs[int(i * step)] for i in range(lim)]
         return cfgs, {"debug_cache_used": cache, "pair_coverage": pair_coverage([c["cfg"] for c in cfgs])}
-    salts = ctx.pick([0], [0, 1, 2])
+    salts = ctx.pick([0], [0, 1])
     res = tlc.run("CodecConfig", _cfg_text("pairs", salts, 2), coverage=True, timeout=3000)
     check_qm_table(res)
     ctx.add_tlc(res, "%s pairs (exhaustive over all value pairs of any two dimensions)" % name, {"Mode": "pairs", "Salts": salts, "MaxDepth": 2})
@@ -93,7 +93,7 @@ def configurations(ctx, name="CodecConfig", only=None):
     if res.coverage.get("Finish", [0])[0] == 0:
         raise RuntimeError("CodecConfig: Finish never taken")
     if not ctx.quick:
-        nsim = 3000
+        nsim = 1500
         sim = tlc.run("CodecConfig", _cfg_text("free", [0], 3, view=False), simulate=nsim, depth=24, seed=ctx.seed, workers=1, timeout=3000)
         extra = _finished(sim)
         info["simulated_configurations"] = len(extra)
